@@ -1589,13 +1589,17 @@ fn run_case(ctx: &Ctx, stats: &Stats, wd: &Watchdog, msg: &[u8], family: &str) {
     stats.eval();
     wd.enter(|| json!({"message": hex(msg), "family": family}));
     let mut results = Vec::new();
-    let rich = !ctx.quick() || matches!(family, "one-item" | "pointer-chains" | "replay");
+    // The label-count family (names of 126..129 labels) keeps the quick-tier battery in both
+    // tiers: the full battery on every derived object is cubic in the label count and takes
+    // longer than the hang watchdog allows for one case (first thorough run: false hang).
+    let wide = !ctx.quick() && family != "label-count";
+    let rich = wide || matches!(family, "one-item" | "pointer-chains" | "replay");
     // every-accessor reads: all families in the thorough tier; in the quick tier the families
     // built from the full per-field menus (the multi-item families repeat those records)
-    let deep_reads = !ctx.quick() || matches!(family, "one-item" | "pointer-chains" | "rdata-axis" | "opt-axis" | "replay");
+    let deep_reads = wide || matches!(family, "one-item" | "pointer-chains" | "rdata-axis" | "opt-axis" | "replay");
     for run in 0..2 {
         let r = guard(|| {
-            let mut t = T { s: String::new(), names: 0, ptr_names: 0, rdata_parsed: 0, errs: vec![], derived: 0, batteries: 0, derive: run == 0, full_derived: rich, deep: !ctx.quick(), rd: deep_reads, deep_reads: 0, limit_names: [0; 3] };
+            let mut t = T { s: String::new(), names: 0, ptr_names: 0, rdata_parsed: 0, errs: vec![], derived: 0, batteries: 0, derive: run == 0, full_derived: rich, deep: wide, rd: deep_reads, deep_reads: 0, limit_names: [0; 3] };
             script(msg, &mut t);
             t
         });
